@@ -16,62 +16,8 @@ theorem gc_rmask_is_the_source (seq : List Char) :
       (Src.cnt seq 'T') (Src.cnt seq 'g') (Src.cnt seq 'c') (Src.cnt seq 'G') (Src.cnt seq 'C') :=
   Src.gcRmask_is_source seq
 
-/-- the sex shift of one bin IS the in-place update `reference.shift_sex_chroms` performs on `cnarr["log2"]`
-    (masks: the bin lies on X / on Y outside the PARs; `isXX`: the truthiness of the sample's recorded sex) -/
-theorem sex_shift_is_the_source (isXX : Bool) (cls : CClass) (flat v : Rat) :
-    sexAdjust isXX cls flat v = Generated.src_shift_sex_chroms (cls == .x) (cls == .y) isXX flat v :=
-  Src.sexAdjust_is_source isXX cls flat v
 
-/-- the neutral pseudo-sample / flat reference profile IS `CopyNumArray.expect_flat_log2` bin by bin -/
-theorem flat_profile_is_the_source (hapX : Bool) (par : Option String) (t : List CBin) :
-    expectFlat hapX par t = t.map (fun b =>
-      Generated.src_expect_flat_log2 hapX
-        (classOf ((t.head?.map (·.chrom)).getD "") par b.chrom b.s b.e == .x)
-        (classOf ((t.head?.map (·.chrom)).getD "") par b.chrom b.s b.e == .y)
-        (b.chrom == yLabel ((t.head?.map (·.chrom)).getD ""))) :=
-  Src.expectFlat_is_source hapX par t
-
-/-- consequently every value a sample contributes to the pooled matrix is the source's sex shift applied to the
-    median-centred log2 and the source's flat level of that bin -/
-theorem sample_values_are_the_source_shift (hapX : Bool) (par : Option String) (skipLow : Bool) (isXX : Option Bool)
-    (flat : List Rat) (rows : List CovRow) :
-    sampleLogr hapX par skipLow isXX flat rows =
-      (rows.zip flat).map (fun p =>
-        let cls := classOf ((rows.head?.map (·.chrom)).getD "") par p.1.chrom p.1.s p.1.e
-        Generated.src_shift_sex_chroms (cls == .x) (cls == .y) (isXX == some true) p.2
-          (p.1.log2 + centerShift medianR true skipLow par (rows.map toC))) := by
-  unfold sampleLogr
-  apply List.map_congr_left
-  intro p _
-  exact Src.sexAdjust_is_source _ _ _ _
-
-/-- the model's correction pipeline IS the sequence of `center_by_window` calls the translator reads in
-    `bias_correct_logr` (GC, RepeatMasker, edge -- in the source's order), skipped under the source's test -/
-theorem correction_pipeline_is_the_source (cfg : CorrCfg) (rows : List CovRow) (logr : List Rat) :
-    correctLogr cfg rows logr =
-      correctLogrBy (Generated.REF_CORRECTION_STEPS.map (·.1)) Generated.REF_LOWCOV_THRESHOLD
-        Generated.REF_LOWCOV_TEST.2.2 cfg rows logr :=
-  Src.correctLogr_is_source cfg rows logr
-
-/-- each correction runs under its own flag with the window fraction 0.1, and the skip test counts the bins with
-    log2 > threshold and compares the count with `<=` -/
-theorem correction_guards_are_the_source :
-    Generated.REF_CORRECTION_STEPS.map (·.2.1) = ["fix_gc", "fix_rmask", "fix_edge"] ∧
-    Generated.REF_CORRECTION_STEPS.all (fun s => s.2.2 == 1 / 10) = true ∧
-    Generated.REF_LOWCOV_TEST.1 = "Gt" ∧ Generated.REF_LOWCOV_TEST.2.1 = "LtE" :=
-  Src.correction_guards_are_source
-
-/-- which corrections the target and the antitarget block get IS what `combine_probes` writes in its two
-    `load_sample_block` calls -/
-theorem block_flags_are_the_source (doGc doEdge doRmask : Bool) (k : BlockKeys) :
-    blockCfg true doGc doEdge doRmask k = blockCfgBy Generated.REF_TARGET_FLAGS doGc doEdge doRmask k ∧
-    blockCfg false doGc doEdge doRmask k = blockCfgBy Generated.REF_ANTITARGET_FLAGS doGc doEdge doRmask k :=
-  Src.blockCfg_is_source doGc doEdge doRmask k
-
-/-! non-vacuity: the generated expressions on concrete arguments -/
+/-! non-vacuity -/
 example : Generated.src_calculate_gc_lo 1 1 1 0 0 1 1 0 = (2/5, 3/5) := by decide +kernel
-example : Generated.src_shift_sex_chroms true false false (-1) (-1/2) = -1/2 := by decide +kernel
-example : Generated.src_expect_flat_log2 false true false false = 0 ∧
-    Generated.src_expect_flat_log2 true true false false = -1 := by decide +kernel
 
 end CnvVerif.C05
